@@ -86,7 +86,7 @@ GUARDS = {
  "C15": "ItemList.__getstate__ / __setstate__ (what goes into the pickled state: stored identifiers / numbers, else resolved through the vocabulary, else left out)",
  "C14": "the copy depth at PipelineBuilder.from_pipeline / build_config and DatasetBuilder.__init__ / build_container",
  "C05": "the path selection of sample_records and sample_users (fall-back calls with their arguments)", "C06": "RankingMetricBase.truncate, Recall's denominator and nDCG's ideal length",
- "C01": "MatrixRelationshipSet.row_items / row_table and Vocabulary.number / numbers / term / terms (unknown identifiers are reported, negative numbers rejected)", "C02": "fallback_on_none (use_first_of) and the runner (status dispatch, answer to a request of a finished node, missing / ill-typed inputs, required-ness of dependencies, bail-out, deferred type test)", "C03": "TopNRanker.__call__ and UserTrainingHistoryLookup.__call__",
+ "C01": "MatrixRelationshipSet.row_items / row_table and Vocabulary.number / numbers / term / terms (unknown identifiers are reported, negative numbers rejected)", "C02": "fallback_on_none (use_first_of) and the runner (status dispatch, answer to a request of a finished node, missing / ill-typed inputs, required-ness of dependencies, bail-out, deferred type test)", "C03": "TopNRanker.__call__, UserTrainingHistoryLookup.__call__ and stats.argtopn",
  "C07": "RunAnalysis.measure (test-data chain)", "C08": "BiasModel.compute_for_items (user-offset chain)", "C09": "UserKNNScorer.__call__ (self-similarity guard)",
  "C10": "ALSBase.__call__ (user number, fold-in guard) and the bias chain", "C11": "DerivingRNG.__call__, random_generator (which generator a seed resolves to), derivable_rng and the samplers' path selection", "C18": "Pipeline.train (seed classification, per-component options) and the retrain guard of all 13 shipped trainable components",
  "C19": "the list-length logic of StochasticTopNRanker, SoftmaxRanker and RandomSelector",
